@@ -602,6 +602,8 @@ func runC11(c *kc.Ctx) {
 	}
 	c.Extra("scenarios_E_asymmetric_eviction_plus_unsolicited_justification", scen-a)
 	flush()
+	c11Rabin(c, rng.Fork("rabin"))
+	c11Protocol(c, rng.Fork("protocol"))
 	_ = sort.Ints
 }
 
